@@ -1,9 +1,10 @@
 (* (1) Implementation model of single-table SELECT (src/database/database.rs, PlanSource::TableScan
-       arm of query_with_columns): reference semantics except for the projection fast path.
+       arm of query_with_columns): the reference semantics (the projection fast-path defect it
+       used to carry is repaired in /repo).
    (2) The recorded finding classes of property C19 as decidable predicates on a query, defined
        through the transcribed analyses of the optimizer (Model/ConstFold.v, Model/Pushdown.v).
    Definitions only.  Classes (known_findings.d/C19.json):
-     1 projection fast path      2 SELECT * over a join        3 expression item over a join
+     1 (fixed) projection fast path   2 SELECT * over a join   3 expression item over a join
      4 push past invisible refs  5 join condition lost after a push to the right input
      6 WHERE under an outer join 7 RIGHT / FULL unmatched rows projected by name
      8 ON residual dropped by the hash join                    9 join nested in a join
@@ -35,28 +36,14 @@ Fixpoint and_all (x : expr) (l : list expr) : expr :=
 Definition and_list (l : list expr) : option expr := match l with [] => None | x :: l' => Some (and_all x l') end.
 
 (* ------------------------------------------------------------------ (1) single-table implementation model *)
-(* The plan has no FilterExec iff the WHERE clause is absent or folds to TRUE.  Then, if every
-   select item is a plain column, find_projections hands the scan the item columns: the source
-   row is [r[c0]; r[c1]; ..] and ProjectExec reads item j at index c_j OF THAT ROW (no column
-   map is installed on this path): beyond the row -> NULL. *)
-Definition fast_path (q : query) : option (list nat) :=
-  match effective_where (q_where q) with
-  | Some _ => None
-  | None => if q_star q then None else match q_items q with [] => None | _ => cols_of (q_items q) end
-  end.
-Definition fast_row (cs : list nat) (r : row) : orow :=
-  let src := map (fun c => nth_error r c) cs in
-  map (fun c => match nth_error src c with Some (Some v) => Some v | _ => Some VNull end) cs.
-Definition impl_single (d : db) (q : query) : list orow :=
-  match fast_path q with
-  | Some cs => map (fast_row cs) (q_rows d q)
-  | None => q_out d q
-  end.
-Definition proj_class (q : query) : bool :=
-  match q_from q, fast_path q with
-  | FTab _, Some cs => negb (nat_list_eqb cs (seq 0 (length cs)))
-  | _, _ => false
-  end.
+(* Single-table SELECT (scan + FilterExec + ProjectExec) follows the reference semantics.
+   Until /repo commit 84a97fb this model carried the projection fast path of query_with_columns:
+   with no FilterExec in the plan (no WHERE, or a WHERE that folds to TRUE) and only plain columns
+   in the select list, the scan was narrowed to the select-list columns while ProjectExec still
+   indexed the row by table position (SELECT c1 FROM t returned NULLs; finding F-C19-1, class 1).
+   The commit makes the narrowed scan deliver the select list directly; the model is the
+   reference semantics again and class 1 is empty. *)
+Definition impl_single (d : db) (q : query) : list orow := q_out d q.
 
 (* ------------------------------------------------------------------ (2) classes of join queries *)
 (* positions of the concatenated row of a two-table join that carry the same column NAME as
@@ -156,7 +143,7 @@ Definition join2_class (d : db) (q : query) (k : jkind) (l r : from) (on : expr)
 
 Definition q_class (d : db) (q : query) : Z :=
   match q_from q with
-  | FTab _ => if proj_class q then 1 else 0
+  | FTab _ => 0
   | FJoin k l r on =>
       if q_star q then 2
       else match cols_of (q_items q) with
